@@ -1,3 +1,3 @@
 From Coq Require Import ExtrOcamlBasic.
-From ChibiV Require Import Common.ExtractBase C06.Defs C06.WindSpec Gen.C06_Travel C06.Machine.
-Extraction "model.ml" ext_base run_script_impl run_script_spec travel_to_point wind_script travel_fuel.
+From ChibiV Require Import Common.ExtractBase C06.Defs C06.WindSpec Gen.C06_Travel C06.Machine C06.StackModel.
+Extraction "model.ml" ext_base run_script_impl run_script_spec travel_to_point wind_script travel_fuel save_stack restore_stack.
